@@ -51,9 +51,12 @@ def generate(rng, tier):
                     # NaN is the only rejected element (seed C19-r5m2: a fast path that lets NaN query points through as NaN results)
                     qs = [rng.uniform(xs[0], xs[-1]) for _ in range(4)]
                     qs[rng.randrange(4)] = float("nan")
+            # the caller's buffer in every memory layout (seed C19-r6m1: a "contiguous buffer" shortcut of the rank-1 fast path cuts the
+            # memory-order slice into rows: wrong for F-order, permuted and negative-stride views)
+            bl_ok = rng.choice(["w", "c", "f", "rev", "neg", "perm", "s2", "revl"])
             for qtag in ("sta", "dyn"):
                 for ent in ("array", "ainto"):
-                    e = e_array(S, [len(qs)], qs, qtag=qtag, lay=ql) if ent == "array" else e_ainto(S, [len(qs)], [len(qs)] + shape[1:], qs, qtag=qtag, lay=ql, blay="w")
+                    e = e_array(S, [len(qs)], qs, qtag=qtag, lay=ql) if ent == "array" else e_ainto(S, [len(qs)], [len(qs)] + shape[1:], qs, qtag=qtag, lay=ql, blay=bl_ok)
                     cases.append({"line": i1_line(S, xs, shape, flat, ("lin", False), e, dtag=rng.choice(["sta", "dyn"])), "meta": {"oob": oob}})
             bad = rng.choice([[len(qs) + 1] + shape[1:], [len(qs) - 1] + shape[1:], [len(qs)] + shape[1:] + [1],
                               [len(qs)] + [d + 1 for d in shape[1:]] if shape[1:] else [len(qs), 1]])
@@ -83,11 +86,12 @@ def generate(rng, tier):
                 if S == "F" and rng.random() < 0.35:
                     qx = [rng.uniform(xs[0], xs[-1]) for _ in qx]; qy = [rng.uniform(ys[0], ys[-1]) for _ in qy]
                     (qx if rng.random() < 0.5 else qy)[rng.randrange(len(qx))] = float("nan")      # NaN is the only rejected element
+            bl_ok2 = rng.choice(["w", "c", "f", "rev", "neg", "perm", "s2", "revl"])
             for qtag in ("sta", "dyn"):
                 cases.append({"line": i2_line(S, xs, ys, shape, flat, False, e_array(S, [len(qx)], qx, qy, qtag=qtag, lay=ql),
                                               dtag=rng.choice(["sta", "dyn"])), "meta": {"oob": oob}})
                 cases.append({"line": i2_line(S, xs, ys, shape, flat, False,
-                                              e_ainto(S, [len(qx)], [len(qx)] + shape[2:], qx, qy, qtag=qtag, lay=ql, blay="w"),
+                                              e_ainto(S, [len(qx)], [len(qx)] + shape[2:], qx, qy, qtag=qtag, lay=ql, blay=bl_ok2),
                                               dtag=rng.choice(["sta", "dyn"])), "meta": {"oob": oob}})
             # caller's buffer of the wrong shape (one query row too many / too few, wrong trailing axis): both paths must reject it
             bad = rng.choice([[len(qx) + 1] + shape[2:], [max(len(qx) - 1, 0)] + shape[2:], [len(qx)] + shape[2:] + [1],
